@@ -573,6 +573,146 @@ example : ((run (init 1 600) [.accept 1 0, .left 1 0, .accept 1 0, .accept 2 0, 
 
 /-! ## the decision structure of the source, as regenerated on this run (xlate, `Gen/Shapes.lean`) -/
 
+/-! ### a waiting receiver keeps its place until it is served or leaves -/
+
+def Waiting (s : St) (p : Nat) : Prop := s.status p = some .queued ∨ s.status p = some .transferring
+
+theorem maybeStart_keeps (now fuel : Nat) (s : St) (p : Nat) (h : Waiting s p) : Waiting (maybeStart now fuel s) p := by
+  induction fuel generalizing s with
+  | zero => exact h
+  | succ f ih =>
+    simp only [maybeStart]
+    split
+    · exact h
+    · split
+      · exact h
+      · split
+        · exact ih _ h
+        · exact ih _ h
+        · apply ih
+          unfold Waiting at h ⊢
+          simp only [upd]
+          split
+          · right; rfl
+          · exact h
+
+/-- `maybeStartTransfers` serves from the head: what is left of the queue is a suffix of it -/
+theorem maybeStart_suffix (now fuel : Nat) (s : St) : (maybeStart now fuel s).queue <:+ s.queue := by
+  induction fuel generalizing s with
+  | zero => exact List.suffix_refl _
+  | succ f ih =>
+    simp only [maybeStart]
+    split
+    · exact List.suffix_refl _
+    · split
+      · exact List.suffix_refl _
+      · rename_i p q hq
+        rw [hq]
+        split
+        · exact (ih _).trans (List.suffix_cons p q)
+        · exact (ih _).trans (List.suffix_cons p q)
+        · exact (ih _).trans (List.suffix_cons p q)
+
+/-- **C12_waiting_kept.** A receiver that accepted and is waiting for a slot leaves the queue in two ways only: it is started, or it
+    leaves. No other event - another receiver's join, accept, leave or transfer end, and no idle clean-up tick however late - drops it. -/
+theorem C12_waiting_kept (s : St) (h : Inv s) (p : Nat) (hq : s.status p = some .queued) (e : Ev) (hne : ∀ now, e ≠ .left p now) :
+    (step s e).status p = some .queued ∨ (step s e).status p = some .transferring := by
+  have hw : Waiting s p := Or.inl hq
+  cases e with
+  | joined q now =>
+    simp only [step, upd]
+    split
+    · rename_i hpq; subst hpq; rw [hq]; left; rfl
+    · exact hw
+  | accept q now =>
+    simp only [step]
+    split
+    · apply maybeStart_keeps; exact hw
+    · apply maybeStart_keeps
+      unfold Waiting
+      simp only [upd]
+      split
+      · left; rfl
+      · exact hw
+  | left q now =>
+    have hpq : p ≠ q := fun hh => hne now (by rw [hh])
+    simp only [step]
+    apply maybeStart_keeps
+    unfold Waiting
+    simp only [upd, hpq, if_false]
+    exact hw
+  | finished g ok now =>
+    simp only [step]
+    split
+    · exact hw
+    · rename_i r hr
+      split
+      · rename_i hact
+        apply maybeStart_keeps
+        unfold Waiting
+        have hrp : r.peer ≠ p := by
+          intro hh
+          have : p ∈ s.active.map (·.1) := by
+            rw [← hh]; exact List.mem_map.mpr ⟨(r.peer, g), hact, rfl⟩
+          have := (h.astat p).mp this
+          rw [hq] at this; cases this
+        cases hs : s.status r.peer with
+        | none => simp only; exact hw
+        | some v =>
+          simp only [upd]
+          have : ¬ p = r.peer := fun hh => hrp hh.symm
+          simp only [this, if_false]
+          exact hw
+      · apply maybeStart_keeps; exact hw
+  | tick now =>
+    simp only [step, hq]
+    left; simp
+
+/-- **C12_served_in_order.** Whatever the event, the receivers still waiting afterwards are the tail of the waiting line as the event
+    left it (the accepted receiver appended, the leaver removed): slots are handed out from the head of the line, nobody overtakes. -/
+theorem C12_served_in_order (s : St) (e : Ev) :
+    ∃ line, (step s e).queue <:+ line ∧
+      line = (match e with
+        | .accept p _ => if s.status p = some .transferring ∨ p ∈ s.queue then s.queue else s.queue ++ [p]
+        | .left p _ => s.queue.filter (· ≠ p)
+        | .tick now => (step s (.tick now)).queue
+        | _ => s.queue) := by
+  cases e with
+  | joined q now => exact ⟨_, List.suffix_refl _, rfl⟩
+  | accept q now =>
+    refine ⟨_, ?_, rfl⟩
+    simp only [step]
+    split
+    · rename_i ht
+      simp only [ht, true_or, if_true]
+      exact maybeStart_suffix _ _ _
+    · rename_i hnt
+      have : ¬ s.status q = some .transferring := fun hh => hnt hh
+      simp only [this, false_or]
+      exact maybeStart_suffix _ _ _
+  | left q now => exact ⟨_, maybeStart_suffix _ _ _, rfl⟩
+  | finished g ok now =>
+    refine ⟨_, ?_, rfl⟩
+    simp only [step]
+    split
+    · exact List.suffix_refl _
+    · split
+      · exact maybeStart_suffix _ _ _
+      · exact maybeStart_suffix _ _ _
+  | tick now => exact ⟨_, List.suffix_refl _, rfl⟩
+
+/-- premises satisfiable: one slot, receiver 0 is served, receiver 1 waits; twenty clean-up periods later it still waits, and is started
+    the moment 0's transfer ends -/
+example : ((run (init 1 10) [.accept 0 0, .accept 1 0, .tick 300]).status 1,
+           (run (init 1 10) [.accept 0 0, .accept 1 0, .tick 300, .finished 0 true 301]).status 1) =
+    (some .queued, some .transferring) := by decide
+
+/-- the clean-up tick as it was: receiver 1, waiting for the one slot while receiver 0 is served for longer than the idle period, is
+    forgotten - it never left, and when the slot frees nobody is started -/
+theorem C12_waiting_kept_refuted_before_fix :
+    ((runOld (init 1 10) [.accept 0 0, .accept 1 0, .tick 11]).status 1,
+     (runOld (init 1 10) [.accept 0 0, .accept 1 0, .tick 11, .finished 0 true 12]).active) = (none, []) := by decide
+
 open TV.Gen.Shapes in
 set_option maxRecDepth 16384 in
 /-- admission: the start loop's guards, the slot *identity* test of a returning transfer, and the leave handler -/
@@ -581,9 +721,10 @@ theorem C12_source_shapes :
     admission_slot_identity = ["s.active[peerID] == slot"] ∧
     admission_left = ["state != nil && state.Status != ReceiverStatusDone", "slot != nil", "slot != nil ; slot.closeFn != nil",
       "slot != nil ; slot.cancel != nil", "queued != peerID"] ∧
-    -- the idle clean-up tick decides and deletes inside one critical section (the model's `tick` is one step)
+    -- the idle clean-up tick decides and deletes inside one critical section (the model's `tick` is one step); receivers being
+    -- served and receivers waiting in the queue are passed over
     admission_cleanup = ["now := s.now()", "changed := false", "s.mu.Lock()",
-      "for peerID, state := range s.receivers { if state.Status == ReceiverStatusTransferring { continue } if now.Sub(state.LastSeen) > s.receiverTTL { delete(s.receivers, peerID) changed = true } }",
+      "for peerID, state := range s.receivers { if state.Status == ReceiverStatusTransferring || state.Status == ReceiverStatusQueued { continue } if now.Sub(state.LastSeen) > s.receiverTTL { delete(s.receivers, peerID) changed = true } }",
       "if changed { filtered := make([]string, 0, len(s.queue)) for _, peerID := range s.queue { if _, ok := s.receivers[peerID]; ok { filtered = append(filtered, peerID) } } s.queue = filtered }",
       "s.mu.Unlock()", "if changed { s.emitChange() }"] := by decide
 
